@@ -2,10 +2,10 @@
 # setup_cmd: build the driver and the rewriter and warm the go1.26 build cache (offline).
 set -e
 export GOFLAGS=-mod=mod GOPROXY=off GOTOOLCHAIN=local
-cd /verif
+cd "$(dirname "$(readlink -f "$0")")"
 mkdir -p bin evidence replays/out
 go1.26 build -o bin/verif ./cmd/verif
-(cd tools/rewrite && go1.26 build -o /verif/bin/vrewrite .)
+(cd tools/rewrite && go1.26 build -o "$OLDPWD/bin/vrewrite" .)
 W=$(mktemp -d)
 trap 'rm -rf "$W"' EXIT
 ./build.sh "$W"
